@@ -201,7 +201,12 @@ class C20(Prop):
                     continue
                 shape = {"passed": (0, []), "added": (0, ["added"]), "updated": (0, ["updated"])}.get(oc, (1, []))
                 if errs != shape[0] or not common.logs_agree(",".join(logs) or "-", ",".join(shape[1]) or "-") or oc.startswith("multi") or oc == "nocount":
-                    fails.append({"msg": "obs %d: outcome %s signalled as errors=%d logs=%s" % (idx, oc, errs, logs)})
+                    f_ = {"msg": "obs %d: outcome %s signalled as errors=%d logs=%s" % (idx, oc, errs, logs)}
+                    if oc.startswith("failed") and errs == 1 and logs and all(l == "unknown" for l in logs):
+                        # exactly one error and, next to it, a log that is neither an `added` nor an `updated` log (a hint, say): the
+                        # text fixes the error, it does not forbid further words - the model does not log there: a broken tie
+                        f_["tie"] = True
+                    fails.append(f_)
                 if errs:
                     tally["erred"] += errs
                 elif logs == ["added"] or (logs == ["unknown"] and oc == "added"):
